@@ -30,6 +30,7 @@ func c01Case(c *runner.Ctx) (docs []*model.MDoc, mode uint32, shape string) {
 			n = 4000 + r.Intn(1200)
 		}
 		docs, _ := gen.JumboBatch(r, n, fmt.Sprintf("j%d", c.Idx))
+		gen.AddExactTerms(r, docs, "exact", gen.ExactSpec(n)) // cardinalities at/around the 1024 chunking constant
 		mode := uint32(1025)
 		if c.Idx%2 == 1 {
 			mode = []uint32{1024, 100, 64}[r.Intn(3)]
